@@ -689,7 +689,9 @@ fn write_evidence<P: Prop>(
     });
     let dir = opts.verif_dir.join("evidence");
     let _ = std::fs::create_dir_all(&dir);
-    let path = dir.join(format!("{}.json", prop.id()));
+    // a run with an overridden case count is a developer's probe, not the registered check
+    let name = if opts.cases_override.is_some() { format!("{}.partial.json", prop.id()) } else { format!("{}.json", prop.id()) };
+    let path = dir.join(name);
     std::fs::write(&path, serde_json::to_string_pretty(&doc).unwrap()).expect("cannot write evidence");
 }
 
